@@ -176,3 +176,38 @@ def _never_shortcircuit(fn, sig, bound, subconditions, allow_interpretation):
 
 _orig_consider_shortcircuit = _core.consider_shortcircuit
 _core.consider_shortcircuit = _never_shortcircuit
+
+# 9 ---------------------------------------------------------------------------------------------
+# CrossHair skips functools.lru_cache altogether (every call runs the wrapped function).  That hides exactly the kind
+# of state the call-history half of C10 is about (a cached mutable result shared between calls), so the cache is
+# modelled instead: unbounded, looked up by == in insertion order (no hashing, so symbolic arguments stay symbolic),
+# returning the SAME object on a hit.  The model is reset at the start of every execution of an obligation body.
+PATCHES.append("functools.lru_cache modelled as an unbounded cache with linear == lookup (CrossHair skips caches), reset per execution")
+from functools import _lru_cache_wrapper as _lcw  # noqa: E402
+
+_CACHES = {}
+
+
+def reset_caches():
+    _CACHES.clear()
+
+
+def _call_with_linear_cache(self, *a, **kw):
+    if not isinstance(self, _lcw):
+        raise TypeError
+    entries = _CACHES.setdefault(id(self), [])
+    for a0, kw0, res in entries:
+        if len(a0) == len(a) and len(kw0) == len(kw):
+            same = True
+            for x, y in zip(a0, a):
+                if not (x is y or x == y):
+                    same = False
+                    break
+            if same and kw0 == kw:
+                return res
+    res = self.__wrapped__(*a, **kw)
+    entries.append((a, dict(kw), res))
+    return res
+
+
+_core._PATCH_REGISTRATIONS[_lcw.__call__] = _call_with_linear_cache  # replaces CrossHair's own "skip the cache" patch
